@@ -219,10 +219,12 @@ def assemble(unit_path, variant=None):
             A.emit(f"// ---- {d}: {rest} ----", d, rest)
             if d == "use":
                 modname = "p_" + re.sub(r"\W", "_", os.path.basename(rest).rsplit(".", 1)[0])
-                A.emit(f"pub mod {modname} {{\nuse super::*;\n" + IMPORTS, "prelude", rest)
+                prev = getattr(A, "exported", [])
+                A.emit(f"pub mod {modname} {{\nuse super::*;\n" + (("use super::{" + ", ".join(prev) + "};\n") if prev else "") + IMPORTS, "prelude", rest)
                 A.emit(txt, "prelude", rest)
                 names = sorted(set(re.findall(r"^\s*pub\s+(?:struct|enum|trait|type)\s+(\w+)", txt, re.M)))
                 A.emit("}\npub use " + modname + "::*;\npub use " + modname + "::{" + ", ".join(names) + "};", "prelude", rest)
+                A.exported = getattr(A, "exported", []) + names
                 for g in re.findall(r"^//@broadcast\s+(\w+)", txt, re.M):
                     A.emit(f"broadcast use {modname}::{g};", "prelude", rest)
             else:
@@ -334,6 +336,7 @@ VERIF_MSGS = [
     ("postcondition not satisfied", "post"),
     ("precondition not satisfied", "pre"),
     ("assertion failed", "assert"),
+    ("requires not satisfied", "assert"),
     ("invariant not satisfied", "inv"),
     ("possible arithmetic underflow/overflow", "arith"),
     ("possible division by zero", "arith"),
